@@ -305,6 +305,7 @@ def extract_table():
             raise Shape("class %s not found" % need)
     subclasses = subclass_table()
     methods, dispatchers, visit_dispatch = [], [], None
+    registry_helpers = set()
     for fn in cls["ASTVisitor"].body:
         if not isinstance(fn, ast.FunctionDef):
             continue
@@ -313,12 +314,30 @@ def extract_table():
         if fn.name == "visit":
             if len(body) != 1 or not isinstance(body[0], ast.Return):
                 raise Shape("visit: body is not a single return")
-            visit_dispatch = _classdispatch_call(body[0].value, params[1], "visit")
+            try:
+                visit_dispatch = _classdispatch_call(body[0].value, params[1], "visit")
+            except Shape:
+                visit_dispatch = None
+            if visit_dispatch is None:
+                # classdispatch(node, self.<helper>()) with `def <helper>(self): return {…}`
+                v = body[0].value
+                helper = None
+                if (isinstance(v, ast.Call) and isinstance(v.func, ast.Name) and v.func.id == "classdispatch" and len(v.args) == 2
+                        and isinstance(v.args[1], ast.Call) and not v.args[1].args and _self_method(v.args[1].func)):
+                    helper = _self_method(v.args[1].func)
+                for g in cls["ASTVisitor"].body:
+                    if helper and isinstance(g, ast.FunctionDef) and g.name == helper:
+                        gb = _strip_doc(g.body)
+                        if len(gb) == 1 and isinstance(gb[0], ast.Return):
+                            visit_dispatch = _registry(gb[0].value, "visit")
+                            registry_helpers.add(helper)
             if visit_dispatch is None:
                 raise Shape("visit: not a classdispatch call")
             continue
+        if fn.name == "_visit_replacement":
+            continue        # the body selection for a replacement of another class: observed by `probe_cross_kind`
         if not fn.name.startswith("_visit_"):
-            if fn.name in ("enter", "leave"):
+            if fn.name in ("enter", "leave") or fn.name in registry_helpers or fn.name == "_methods":
                 continue
             raise Shape("unexpected method ASTVisitor.%s" % fn.name)
         if len(params) != 2:
@@ -397,7 +416,36 @@ def extract_table():
                 enter_registry=regs["enter"], leave_registry=regs["leave"])
 
 
+def probe_cross_kind():
+    """Does the wrapper traverse a replacement of ANOTHER class with the method of the replacement's class (True), or
+    go on with the body of the original node's method (False)? Observed on the real code: a Field replaced by an
+    InlineFragment whose own selection set holds a field."""
+    from py_gql.lang import parse
+    import py_gql.lang.ast as A
+    from py_gql.lang.visitor import ASTVisitor
+    seen = []
+    repl = A.InlineFragment(selection_set=A.SelectionSet(selections=[A.Field(name=A.Name(value="inner"))]))
+
+    class V(ASTVisitor):
+        def enter(self, node):
+            seen.append(node)
+            if isinstance(node, A.Field) and node.name.value == "a":
+                return repl
+            return node
+    try:
+        V().visit(parse("{ a }"))
+    except Exception:  # noqa
+        return False
+    return any(isinstance(n, A.Field) and n.name.value == "inner" for n in seen)
+
+
 def get_table():
+    t = _get_table()
+    t["cross_kind"] = probe_cross_kind()
+    return t
+
+
+def _get_table():
     """static extraction; DYNAMIC fallback (observed by running the real visitor) when a shape is not recognised"""
     import os
     try:
@@ -506,7 +554,11 @@ def to_lean(t):
         L.append("def %s : List (String × String) := [" % nm)
         L.append(",\n".join("  (%s, %s)" % (_s(k), _s(m)) for k, m in t[key]))
         L.append("]\n")
-    L.append("def table : Table := { methods := methods, visit := visitDispatch, dispatchers := dispatchers, slots := slots }")
+    L.append("/-- the wrapper runs the method of the class of the node RETURNED by `enter` when that class differs from the")
+    L.append("    argument's (observed on the real code by `probe_cross_kind`; true with proposed fix C18-W7) -/")
+    L.append("def crossKind : Bool := %s" % ("true" if t.get("cross_kind") else "false"))
+    L.append("")
+    L.append("def table : Table := { methods := methods, visit := visitDispatch, dispatchers := dispatchers, slots := slots, crossKind := crossKind }")
     L.append("")
     L.append("/-! witness documents, parsed by the real parser on this run (attribute `loc` dropped, ids = pre-order numbers) -/")
     for name, text, kw in WITNESSES:
